@@ -80,6 +80,12 @@ def _k2off(seed):
     return Driver("k2off", [two_regime_series(9, 1, 3) * 0.05 + 1e6], W=2, K=2, beta=1.0, m=2, biased=True)
 
 
+@driver("k2off7")
+def _k2off7(seed):
+    # the same on a 3e7 offset with unit spread: x'Tx - 2x'Tm + m'Tm loses every digit here, (x-m)'T(x-m) none
+    return Driver("k2off7", [np.round(two_regime_series(9, 1, 3), 2) + 3e7], W=2, K=2, beta=1.0, m=2)
+
+
 @driver("k2one")
 def _k2one(seed):
     # ONE regime, two clusters: clusters keep emptying and being refilled (repopulation in several rounds)
